@@ -15,6 +15,7 @@ import Driver.MixP
 import Driver.StoreP
 import Driver.ErrP
 import Driver.SmallP
+import Driver.ClsP
 import Driver.RefP
 import Driver.InlP
 import Driver.CcP
@@ -51,6 +52,7 @@ def handle (line : String) : String :=
   | "mixed" :: args => Driver.MixP.handle args
   | "store" :: args => Driver.StoreP.handle args
   | "errval" :: args => Driver.ErrP.handle args
+  | "classattr" :: args => Driver.ClsP.handle args
   | "normcolor" :: args => Driver.SmallP.colorHandle args
   | "dedup" :: args => Driver.SmallP.dedupHandle args
   | "fonttags" :: args => Driver.SmallP.tagsHandle args
